@@ -1,4 +1,4 @@
-CONSTANT Design = "export_skips_register"
+CONSTANT Design = "backend_destroyed_first"
 SPECIFICATION Spec
 INVARIANT InvNotLost
 INVARIANT InvInterruptible
